@@ -460,6 +460,9 @@ class UpdateCollection(Message):
                 yield self._message(UpdateCollection.prefix(withdraws) + UpdateCollection.prefix(attr) + announced)
             else:
                 yield self._message(UpdateCollection.prefix(withdraws) + UpdateCollection.prefix(b'') + announced)
+            # they went out: the MP section below must not send them again, nor count them against its room
+            announced = b''
+            withdraws = b''
 
         # Get all families that have MP announces or withdraws
         all_mp_families = set(mp_announces.keys()) | set(mp_withdraws.keys())
